@@ -251,6 +251,18 @@ pub fn range_violation(files: &[FileInfo], tok_bounds: &TokBounds, r: &RangeRec)
         if !(start_ok && end_ok) {
             return Some(format!("{}: range {s}..{e} ({:?}) does not cover whole tokens in {}", r.what, &f.text[s..e], f.rel));
         }
+        // references, highlights, rename edits, prepare-rename, semantic highlights and the
+        // completion's typed token are ONE identifier token each (a definition focus may be a
+        // whole field or spread pattern)
+        if matches!(r.what, "references" | "highlight" | "rename.edit" | "prepare_rename" | "semantic_highlight") {
+            let one = match tb {
+                Some((_, starts, ends)) => starts.iter().zip(ends.iter()).any(|(a, b)| *a == s && *b == e),
+                None => false,
+            };
+            if !one {
+                return Some(format!("{}: range {s}..{e} ({:?}) is not a single token in {}", r.what, &f.text[s..e], f.rel));
+            }
+        }
     }
     None
 }
